@@ -239,6 +239,7 @@ c.canary("spec.ed_view(result) == spec.ed_ae_from(0, 0)")
 GRP = "ed25519_group._Ed25519Group"
 REG.shape(GRP, Base="global:ed25519_basic.Base", Zero="global:ed25519_basic.Zero", scalar_size_bytes="int", element_size_bytes="int")
 REG.class_invariant(GRP, "self.scalar_size_bytes == 32 and self.element_size_bytes == 32", name="sizes")
+REG.class_invariant(GRP, "spec.ed_view(self.Base) == spec.ed_B() and spec.ed_view(self.Zero) == spec.ed_O()", name="base-and-zero")
 vc.SINGLETONS[GRP] = ("ed25519_group", "Ed25519Group")
 
 c = REG.contract(GRP + ".random_scalar")
